@@ -54,7 +54,7 @@ func main() {
 			fmt.Printf("REPRODUCED property=%s signature=%s same_trace=%v\n", rf.Property, rf.Violation.Sig, res.SameTrace)
 			os.Exit(1)
 		}
-		fmt.Printf("NOT-REPRODUCED property=%s signature=%s\n", rf.Property, rf.Violation.Sig)
+		fmt.Printf("REPLAY-CLEAN property=%s signature=%s\n", rf.Property, rf.Violation.Sig)
 		os.Exit(0)
 	case "run":
 		p := sim.Params{Prop: *prop, Engine: *engine, Tier: *tier, VerifSeed: *seed, Worker: *wk, NWorkers: *nw, MaxRuns: *maxRuns,
